@@ -334,6 +334,9 @@ func renderGFF(rows []gffRow, genome string, withFasta, withRegion bool, refName
 // ---------------------------------------------------------------------------------------------
 // alignments of queries to the genome
 
+// set by a generator around a call of genVarCase: queries dense in IUPAC codes
+var denseIUPAC bool
+
 type msa struct {
 	refRow string
 	names  []string
@@ -391,9 +394,16 @@ func buildMSA(r *RNG, genome string, nq int, withIns bool, gapRich bool) msa {
 		q := []byte(genome)
 		// substitutions
 		rate := r.PickInt([]int{20, 10, 6})
+		iupacIn := 5
+		if denseIUPAC { // every second base replaced, mostly by an ambiguity code: every kind of codon gets translated
+			rate, iupacIn = 2, 1
+			if r.Chance(1, 4) {
+				iupacIn = 2
+			}
+		}
 		for p := range q {
 			if r.Chance(1, rate) {
-				if r.Chance(1, 5) {
+				if r.Chance(1, iupacIn) {
 					q[p] = r.Pick("RYSWKMBDHVN")
 				} else {
 					q[p] = r.Pick(symACGT)
@@ -615,6 +625,12 @@ type stdinReader struct{ *strings.Reader }
 func runVariants(c *Case, seqs []string, names []string, annText string, annSuffix string, agg bool, forceStdin bool) result {
 	layout := randLayout(NewRNG(idSeed(c.ID)))
 	layout.noEOL = false
+	switch c.Get("lay") {
+	case "plain": // one line per sequence, LF
+		layout = layoutOf(0, false)
+	case "crlfwrap": // CRLF line ends and every sequence (the reference included) wrapped over several lines
+		layout = layoutOf(1+int(idSeed(c.ID)%9), true)
+	}
 	msaTxt := renderFasta(names, seqs, layout)
 	refID := c.Get("refname")
 	stdin := c.Get("refmode") == "stdin" || forceStdin
